@@ -84,7 +84,7 @@ struct PCd { void* f; int64_t m; double divisor; };
 
 typedef std::function<void(ApiCase&, const KernelInfo&)> KFn;
 
-inline void run_kernel_group(const KernelGroup& G, bool thorough, const KFn& fn) {
+inline void run_kernel_group_base(const KernelGroup& G, bool thorough, const KFn& fn) {
   const uint64_t sz = G.size;
   switch (G.fam) {
     // --------------------------------------------------------------------------------------------
@@ -500,6 +500,36 @@ inline void run_kernel_group(const KernelGroup& G, bool thorough, const KFn& fn)
       break;
     }
   }
+}
+
+// Every kernel case, plus - when two read-only operands have the same extent - two twins: the same data in both operands through two
+// arrays, and ONE array passed for both (x == y by pointer: squares, sums of squares).  The twins carry no byte-exact expectation
+// (outputs are "written, not judged by the model"): they are judged by the differential oracles of the checks (reference against
+// accelerated variant, repeated runs, offsets, read-only operands, memory contract).
+inline void run_kernel_group(const KernelGroup& G, bool thorough, const KFn& fn) {
+  run_kernel_group_base(G, thorough, [&](ApiCase& c, const KernelInfo& ki) {
+    fn(c, ki);
+    const int nb = (int)c.bufs.size();
+    int bi = -1, bj = -1;
+    for (int i = 0; i < nb && bi < 0; ++i) for (int j = i + 1; j < nb; ++j) {
+      const Buf& x = c.bufs[i]; const Buf& y = c.bufs[j];
+      if (x.role != R_IN || y.role != R_IN || x.bytes == 0 || x.bytes != y.bytes || x.alias_of >= 0 || y.alias_of >= 0) continue;
+      bool used = false;
+      for (int k = 0; k < nb; ++k) if (c.bufs[k].alias_of == i || c.bufs[k].alias_of == j) used = true;
+      if (used) continue;
+      bi = i; bj = j; break;
+    }
+    if (bi < 0 || c.bufs[bi].bytes > (size_t(1) << 22)) return;
+    ApiCase t = c;
+    t.id = c.id + "|same data in " + c.bufs[bi].name + " and " + c.bufs[bj].name;
+    t.bufs[bj].init = t.bufs[bi].init;
+    for (auto& b : t.bufs) if (b.role == R_OUT || b.role == R_INOUT) for (auto& m : b.mask) if (m == 1) m = 2;
+    fn(t, ki);
+    ApiCase u = t;
+    u.id = c.id + "|one array passed as " + c.bufs[bi].name + " and " + c.bufs[bj].name;
+    u.bufs[bj].alias_of = bi;
+    fn(u, ki);
+  });
 }
 
 }  // namespace vf
